@@ -396,7 +396,14 @@ def _judge_mesh(ctx, name, verts, faces, model, nu, nv, s, rc, feats, trim_spec=
         uvs.append(c)
     if not ctx.check(pre + 'uv_in_domain', not outside, rc, feats, [[float(lo), float(hi)] for lo, hi in model.dom], outside[:6],
                      'stored vertex parameters lie in the parametric domain of the surface'):
-        return
+        # diagnosis only: if the stored values are parameters normalised to the unit square, go on judging the mesh
+        # under that reading (the violation above stands: position != surface(stored parameters))
+        tol = F(1, 10 ** 12)
+        unit = [[F(x) for x in v.uv] for v in verts]
+        if model.unit or not all(-tol <= x <= 1 + tol for p in unit for x in p):
+            return
+        feats = dict(feats, uv_reading='normalised')
+        uvs = [tuple(lo + (hi - lo) * min(max(x, F(0)), F(1)) for x, (lo, hi) in zip(p, model.dom)) for p in unit]
     got = [list(v.data) for v in verts]
     exp = [model.point(c) for c in uvs]
     ctx.close(pre + 'vertex_on_surface', got, exp, TOL_POS, model.scale, rc, feats)
